@@ -1231,8 +1231,8 @@ class MChild(Monitor):
                 if not (a["status"] == 400 and a["type"] == "InvalidToken"):
                     self._flag(w, "bad_token_accepted", "%s with a %s token answered HTTP %s %s, expected 400 InvalidToken" % (a["action"], tag, a["status"], a["type"]), what=tag)
             elif tag == "malformed":
-                if not (a["status"] == 400 and a["type"] in ("InvalidToken", "MissingRequiredParameter", "ValidationException")):
-                    self._flag(w, "bad_token_accepted", "%s with a malformed (%s) token answered HTTP %s %s, expected 400 InvalidToken" % (a["action"], a.get("mangle"), a["status"], a["type"]), what="malformed")
+                if not (a["status"] == 400 and a["type"] in ("InvalidToken", "MissingRequiredParameter", "ValidationException", "ValidationError", "InvalidOutput")):
+                    self._flag(w, "bad_token_accepted", "%s with a malformed (%s) token or argument answered HTTP %s %s, expected a 400 validation error" % (a["action"], a.get("mangle"), a["status"], a["type"]), what="malformed")
             elif tag in ("valid", "valid-failure"):
                 self.valid_cb_steps.append(a["step"])
                 if a["status"] != 200:
